@@ -12,7 +12,8 @@ build() {
   (cd "$HERE/checker" && go build -o "$BIN" .) || { echo "CHECK-BROKEN: checker does not build" >&2; exit 2; }
 }
 if [ "$ID" = "build" ]; then build; exit 0; fi
-if [ ! -x "$BIN" ] || [ -n "$(find "$HERE/checker" -newer "$BIN" \( -name '*.go' -o -name go.mod \) -print -quit)" ]; then build; fi
+if [ -n "${VERIF_BIN:-}" ]; then BIN="$VERIF_BIN"  # a snapshot of the checker (tools/ only; never used by registered commands)
+elif [ ! -x "$BIN" ] || [ -n "$(find "$HERE/checker" -newer "$BIN" \( -name '*.go' -o -name go.mod \) -print -quit)" ]; then build; fi
 if [ "$ID" = "warm" ]; then "$BIN" -warm -repo "$REPO"; exit $?; fi
 EXTRA=()
 if [ "${1:-}" = "--replay" ]; then EXTRA=(-replay "$2"); fi
